@@ -123,6 +123,9 @@ def main():
                                                           ("seq", "inner", (("base", "x", "d", (), ()),), ())),
                                             ((1, "abc", ((1.5,),)), (2, "abcd", ()), (3, "", ((2.5,), (3.5,))), (4, "abcdefgh", ()),
                                              (5, "ab", ((4.5,),)))),)))
+        # ... and a flat sequence whose records differ only in the sign of a zero (0.0 == -0.0, but they are different values)
+        corpus.append(("dataset", "z0", (("seq", "q", (("base", "a", "i", (), ()), ("base", "f", "f", (), ()), ("base", "d", "d", (), ())),
+                                           ((1, 0.0, 0.0), (1, -0.0, 0.0), (1, 0.0, -0.0), (1, -0.0, -0.0), (1, 0.0, 0.0))),)))
         while done < n and attempts < 20 * n:
             attempts += 1
             desc = corpus.pop(0) if corpus else G.gen_dataset(rng)
